@@ -35,7 +35,8 @@ pub fn run(ctx: &Ctx) -> bool {
         "C06" => c06::run(ctx),
         "C07" => {
             c07::run(ctx);
-            c07::run_pool_isolation(ctx)
+            c07::run_pool_isolation(ctx);
+            c07::run_pcap_loop(ctx)
         }
         "C08" => {
             c08::run(ctx);
@@ -43,7 +44,10 @@ pub fn run(ctx: &Ctx) -> bool {
             c08::fuzz(ctx)
         }
         "C09" => c09::run(ctx),
-        "C10" => c10::run(ctx),
+        "C10" => {
+            c10::run(ctx);
+            c10::run_filtered(ctx)
+        }
         "C11" => {
             c11::run(ctx);
             c11::run_churn(ctx);
